@@ -195,6 +195,399 @@ theorem debt_valued_high (p : Pos) (r : Req) (v pr : Int) (h : weightedLiab p r 
         | error e => intro h; cases h
         | ok vv => intro h; injection h with h; injection h with h1 h2; subst h1; subst h2; exact ⟨amt, rfl, rfl, hcv⟩
 
+/-! ### a liquidation buffer: at equal prices, initially healthy ⇒ healthy at maintenance level (C13's consequence) -/
+
+/-- what C13 establishes for every accepted bank configuration, as far as the valuation reads it -/
+def Coherent (b : BankR) : Prop :=
+  0 ≤ b.aInit ∧ b.aInit ≤ b.aMaint ∧ 0 ≤ b.lMaint ∧ b.lMaint ≤ b.lInit ∧ 0 ≤ b.asv ∧ 0 ≤ b.lsv
+
+def EntriesOk (em : List Entry) : Prop := ∀ e ∈ em, e.tag ≠ 0 → 0 ≤ e.wInit ∧ e.wInit ≤ e.wMaint
+
+theorem calcValue_mono_weight {amt price d w1 w2 v1 v2 : Int} (ha : 0 ≤ amt) (hp : 0 ≤ price) (hw1 : 0 ≤ w1) (hw : w1 ≤ w2)
+    (h1 : calcValue amt price d (some w1) = .ok v1) (h2 : calcValue amt price d (some w2) = .ok v2) : 0 ≤ v1 ∧ v1 ≤ v2 := by
+  have hONE := ONE_pos
+  unfold calcValue at h1 h2
+  split at h1
+  · rename_i h0
+    simp only [h0, ↓reduceIte] at h2
+    injection h1 with h1; injection h2 with h2; omega
+  · rename_i h0
+    simp only [h0, ↓reduceIte] at h2
+    obtain ⟨sc, hs, h1⟩ := Res.bind_ok h1
+    obtain ⟨sc2, hs2, h2⟩ := Res.bind_ok h2
+    rw [hs] at hs2
+    injection hs2 with hs2
+    subst hs2
+    have hsc := exp10fx_pos hs
+    obtain ⟨x1, hx1, h1⟩ := Res.bind_ok h1
+    obtain ⟨y1, hy1, h1⟩ := Res.bind_ok h1
+    obtain ⟨x2, hx2, h2⟩ := Res.bind_ok h2
+    obtain ⟨y2, hy2, h2⟩ := Res.bind_ok h2
+    have ex1 : x1 = amt * w1 / ONE := by
+      cases hm : mul? amt w1 with
+      | none => rw [hm] at hx1; cases hx1
+      | some y => rw [hm] at hx1; injection hx1 with hx1; subst hx1; exact (mul?_some hm).1
+    have ex2 : x2 = amt * w2 / ONE := by
+      cases hm : mul? amt w2 with
+      | none => rw [hm] at hx2; cases hx2
+      | some y => rw [hm] at hx2; injection hx2 with hx2; subst hx2; exact (mul?_some hm).1
+    have ey1 := (mul?_some (rmath_ok hy1)).1
+    have ey2 := (mul?_some (rmath_ok hy2)).1
+    obtain ⟨_, ev1, _, _⟩ := div?_some (rmath_ok h1)
+    obtain ⟨_, ev2, _, _⟩ := div?_some (rmath_ok h2)
+    have hx : x1 ≤ x2 := by
+      rw [ex1, ex2]; exact Int.ediv_le_ediv hONE (Int.mul_le_mul_of_nonneg_left hw ha)
+    have x1n : 0 ≤ x1 := by rw [ex1]; exact Int.ediv_nonneg (Int.mul_nonneg ha hw1) (by omega)
+    have hy : y1 ≤ y2 := by
+      rw [ey1, ey2]; exact Int.ediv_le_ediv hONE (Int.mul_le_mul_of_nonneg_right hx hp)
+    have y1n : 0 ≤ y1 := by rw [ey1]; exact Int.ediv_nonneg (Int.mul_nonneg x1n hp) (by omega)
+    rw [tdiv_nonneg (Int.mul_nonneg y1n (by omega))] at ev1
+    rw [tdiv_nonneg (Int.mul_nonneg (by omega) (by omega))] at ev2
+    rw [ev1, ev2]
+    exact ⟨Int.ediv_nonneg (Int.mul_nonneg y1n (by omega)) (by omega),
+      Int.ediv_le_ediv hsc (Int.mul_le_mul_of_nonneg_right hy (by omega))⟩
+
+theorem weight0_mono {b : BankR} {em : List Entry} (hc : Coherent b) (hem : EntriesOk em) :
+    0 ≤ assetWeight0 b .initial em ∧ assetWeight0 b .initial em ≤ assetWeight0 b .maint em := by
+  obtain ⟨c1, c2, _⟩ := hc
+  unfold assetWeight0
+  cases hfe : findWithTag em b.emodeTag with
+  | none => simp only [bankWeight]; exact ⟨c1, c2⟩
+  | some e =>
+    simp only [bankWeight]
+    have hmem : e ∈ em ∧ e.tag ≠ 0 := by
+      unfold findWithTag at hfe
+      split at hfe
+      · cases hfe
+      · rename_i hne
+        have := List.find?_some hfe
+        simp only [beq_iff_eq] at this
+        exact ⟨List.mem_of_find?_eq_some hfe, by omega⟩
+    have := (hem e hmem.1 hmem.2).2
+    exact ⟨Int.le_trans c1 (Int.le_max_left _ _),
+      Int.max_le.mpr ⟨Int.le_trans c2 (Int.le_max_left _ _), Int.le_trans this (Int.le_max_right _ _)⟩⟩
+
+/-- the init-limit discount is a factor in [0, 1] -/
+theorem discount_le_one {b : BankR} {price d : Int} (h : initDiscount b price = .ok (some d)) (hl : 0 ≤ b.initLimit) :
+    0 ≤ d ∧ d ≤ ONE := by
+  have hONE := ONE_pos
+  unfold initDiscount at h
+  split at h
+  · cases h
+  · obtain ⟨ta, _, h⟩ := Res.bind_ok h
+    obtain ⟨tot, _, h⟩ := Res.bind_ok h
+    dsimp only at h
+    split at h
+    · rename_i hgt
+      cases hq : Risk.math (div? (ofInt b.initLimit) tot) with
+      | error e => rw [hq] at h; cases h
+      | ok q =>
+        rw [hq] at h
+        injection h with h
+        injection h with h
+        subst h
+        obtain ⟨_, eq, _, _⟩ := div?_some (rmath_ok hq)
+        have hlim0 : 0 ≤ ofInt b.initLimit := Int.mul_nonneg hl (by omega)
+        have htot : 0 < tot := by omega
+        rw [tdiv_nonneg (Int.mul_nonneg hlim0 (by omega))] at eq
+        rw [eq]
+        refine ⟨Int.ediv_nonneg (Int.mul_nonneg hlim0 (by omega)) (by omega), ?_⟩
+        have h1 : ofInt b.initLimit * ONE ≤ tot * ONE := Int.mul_le_mul_of_nonneg_right (by omega) (by omega)
+        have h2 := Int.ediv_le_ediv htot h1
+        rw [Int.mul_comm tot ONE, Int.mul_ediv_cancel _ (by omega : tot ≠ 0)] at h2
+        exact h2
+    · injection h with h; cases h
+
+theorem weight_init_le {b : BankR} {em : List Entry} {price w : Int} (hc : Coherent b) (hem : EntriesOk em) (hl : 0 ≤ b.initLimit)
+    (h : assetWeight b .initial em price = .ok w) : 0 ≤ w ∧ w ≤ assetWeight0 b .maint em := by
+  obtain ⟨w0n, w0m⟩ := weight0_mono hc hem
+  have hONE := ONE_pos
+  unfold assetWeight at h
+  simp only [↓reduceIte] at h
+  obtain ⟨d, hd, h⟩ := Res.bind_ok h
+  cases d with
+  | none => injection h with h; subst h; exact ⟨w0n, w0m⟩
+  | some dd =>
+    simp only at h
+    obtain ⟨d0, d1⟩ := discount_le_one hd hl
+    have e := (mul?_some (rmath_ok h)).1
+    have h1 : assetWeight0 b .initial em * dd ≤ assetWeight0 b .initial em * ONE := Int.mul_le_mul_of_nonneg_left d1 w0n
+    have h2 := Int.ediv_le_ediv hONE h1
+    rw [Int.mul_ediv_cancel _ (by omega : ONE ≠ 0)] at h2
+    rw [e]
+    exact ⟨Int.ediv_nonneg (Int.mul_nonneg w0n d0) (by omega), by omega⟩
+
+/-- one position, priced by a type- and bias-independent (fixed) price: its initial asset value is at most its
+    maintenance asset value, and its initial debt value at least its maintenance debt value -/
+theorem position_init_vs_maint {p : Pos} {em : List Entry} {price ai li am lm pi pm : Int} {ci cm : Nat}
+    (hf : p.feed = .fixed price) (hp : 0 ≤ price) (hc : Coherent p.bank) (hlim : 0 ≤ p.bank.initLimit)
+    (ha : 0 ≤ p.a) (hl : 0 ≤ p.l) (hem : EntriesOk em)
+    (hi : weightedValue p .initial em = .ok (ai, li, pi, ci)) (hm : weightedValue p .maint em = .ok (am, lm, pm, cm)) :
+    0 ≤ ai ∧ ai ≤ am ∧ 0 ≤ lm ∧ lm ≤ li := by
+  obtain ⟨c1, c2, c3, c4, c5, c6⟩ := hc
+  have hONE := ONE_pos
+  unfold weightedValue at hi hm
+  cases hs : getSide p with
+  | error e => rw [hs] at hi; cases hi
+  | ok side =>
+    rw [hs] at hi hm
+    simp only [bind, Except.bind] at hi hm
+    cases side with
+    | none =>
+      injection hi with hi; injection hm with hm
+      injection hi with e1 hi; injection hi with e2 _
+      injection hm with f1 hm; injection hm with f2 _
+      omega
+    | some sd =>
+      cases sd with
+      | liabs =>
+        simp only at hi hm
+        cases hwi : weightedLiab p .initial with
+        | error e => rw [hwi] at hi; cases hi
+        | ok ri =>
+          cases hwm : weightedLiab p .maint with
+          | error e => rw [hwm] at hm; cases hm
+          | ok rm =>
+            rw [hwi] at hi; rw [hwm] at hm
+            obtain ⟨vi, pri⟩ := ri
+            obtain ⟨vm, prm⟩ := rm
+            simp only at hi hm
+            injection hi with hi; injection hm with hm
+            injection hi with e1 hi; injection hi with e2 _
+            injection hm with f1 hm; injection hm with f2 _
+            subst e1; subst e2; subst f1; subst f2
+            obtain ⟨amt1, hp1, ha1, hv1⟩ := debt_valued_high p .initial _ _ hwi
+            obtain ⟨amt2, hp2, ha2, hv2⟩ := debt_valued_high p .maint _ _ hwm
+            rw [ha1] at ha2
+            injection ha2 with ha2
+            subst ha2
+            rw [hf] at hp1 hp2
+            simp only [priceOfType] at hp1 hp2
+            injection hp1 with hp1; injection hp2 with hp2
+            subst hp1; subst hp2
+            have hamt : 0 ≤ amt1 := by
+              unfold liabAmount at ha1
+              rw [(mul?_some (rmath_ok ha1)).1]
+              exact Int.ediv_nonneg (Int.mul_nonneg hl c6) (by omega)
+            have := calcValue_mono_weight hamt hp c3 c4 hv2 hv1
+            exact ⟨by omega, by omega, this.1, this.2⟩
+      | assets =>
+        simp only at hi hm
+        cases hwi : weightedAsset p .initial em with
+        | error e => rw [hwi] at hi; cases hi
+        | ok ri =>
+          cases hwm : weightedAsset p .maint em with
+          | error e => rw [hwm] at hm; cases hm
+          | ok rm =>
+            rw [hwi] at hi; rw [hwm] at hm
+            obtain ⟨vi, pri, eci⟩ := ri
+            obtain ⟨vm, prm, ecm⟩ := rm
+            simp only at hi hm
+            injection hi with hi; injection hm with hm
+            injection hi with e1 hi; injection hi with e2 _
+            injection hm with f1 hm; injection hm with f2 _
+            subst e1; subst e2; subst f1; subst f2
+            unfold weightedAsset at hwi hwm
+            cases ht : p.bank.tier with
+            | isolated =>
+              simp only [ht] at hwi hwm
+              injection hwi with hwi; injection hwm with hwm
+              injection hwi with g1 _; injection hwm with g2 _
+              omega
+            | collateral =>
+              simp only [ht, hf] at hwi hwm
+              -- maintenance side
+              have hnm : ¬ (p.bank.reduceOnly = true ∧ Req.maint = Req.initial) := by simp
+              simp only [hnm, ↓reduceIte, priceOfType, bind, Except.bind] at hwm
+              have ewm : assetWeight p.bank .maint em price = .ok (assetWeight0 p.bank .maint em) := by
+                unfold assetWeight; simp
+              rw [ewm] at hwm
+              simp only at hwm
+              cases hamt : assetAmount p.bank p.a with
+              | error e => rw [hamt] at hwm; cases hwm
+              | ok amt =>
+                rw [hamt] at hwm
+                simp only at hwm
+                have hamt0 : 0 ≤ amt := by
+                  unfold assetAmount at hamt
+                  rw [(mul?_some (rmath_ok hamt)).1]
+                  exact Int.ediv_nonneg (Int.mul_nonneg ha c5) (by omega)
+                cases hvm : calcValue amt price p.bank.decimals (some (assetWeight0 p.bank .maint em)) with
+                | error e => rw [hvm] at hwm; cases hwm
+                | ok vm' =>
+                  rw [hvm] at hwm
+                  injection hwm with hwm
+                  injection hwm with g2 _
+                  subst g2
+                  obtain ⟨w0n, w0m⟩ := weight0_mono ⟨c1, c2, c3, c4, c5, c6⟩ hem
+                  have vm0 := (calcValue_mono_weight hamt0 hp (Int.le_trans w0n w0m) (Int.le_refl _) hvm hvm).1
+                  -- initial side
+                  by_cases hro : p.bank.reduceOnly = true
+                  · simp only [hro, and_self, ↓reduceIte] at hwi
+                    injection hwi with hwi
+                    injection hwi with g1 _
+                    subst g1
+                    exact ⟨by omega, vm0, by omega, by omega⟩
+                  · simp only [hro, false_and, and_true, and_self, ↓reduceIte, priceOfType, bind, Except.bind] at hwi
+                    cases hw : assetWeight p.bank .initial em price with
+                    | error e => rw [hw] at hwi; cases hwi
+                    | ok w =>
+                      rw [hw] at hwi
+                      simp only at hwi
+                      rw [hamt] at hwi
+                      simp only at hwi
+                      cases hvi : calcValue amt price p.bank.decimals (some w) with
+                      | error e => rw [hvi] at hwi; cases hwi
+                      | ok vi' =>
+                        rw [hvi] at hwi
+                        injection hwi with hwi
+                        injection hwi with g1 _
+                        subst g1
+                        obtain ⟨wn, wle⟩ := weight_init_le ⟨c1, c2, c3, c4, c5, c6⟩ hem hlim hw
+                        have := calcValue_mono_weight hamt0 hp wn wle hvi hvm
+                        exact ⟨this.1, this.2, by omega, by omega⟩
+
+theorem loop_init_vs_maint {em : List Entry} :
+    ∀ (ps : List Pos) (i : Nat) (ai am : Comps) (ci cm : Comps),
+      (∀ p ∈ ps, (∃ price, p.feed = .fixed price ∧ 0 ≤ price) ∧ Coherent p.bank ∧ 0 ≤ p.bank.initLimit ∧ 0 ≤ p.a ∧ 0 ≤ p.l) →
+      EntriesOk em → ai.assets ≤ am.assets → am.liabs ≤ ai.liabs →
+      compsLoop .initial em ps i ai = (ci, none) → compsLoop .maint em ps i am = (cm, none) →
+      ci.assets ≤ cm.assets ∧ cm.liabs ≤ ci.liabs := by
+  intro ps
+  induction ps with
+  | nil =>
+    intro i ai am ci cm _ _ h1 h2 hi hm
+    unfold compsLoop at hi hm
+    injection hi with hi _; injection hm with hm _
+    subst hi; subst hm
+    exact ⟨h1, h2⟩
+  | cons p rest ih =>
+    intro i ai am ci cm hall hem h1 h2 hi hm
+    unfold compsLoop at hi hm
+    cases hwi : weightedValue p .initial em with
+    | error e => rw [hwi] at hi; injection hi with _ hi; cases hi
+    | ok ri =>
+      cases hwm : weightedValue p .maint em with
+      | error e => rw [hwm] at hm; injection hm with _ hm; cases hm
+      | ok rm =>
+        rw [hwi] at hi; rw [hwm] at hm
+        obtain ⟨avi, lvi, pri, eci⟩ := ri
+        obtain ⟨avm, lvm, prm, ecm⟩ := rm
+        simp only at hi hm
+        obtain ⟨⟨price, hf, hp⟩, hc, hlim, ha, hl⟩ := hall p (List.mem_cons_self ..)
+        obtain ⟨q1, q2, q3, q4⟩ := position_init_vs_maint hf hp hc hlim ha hl hem hwi hwm
+        cases hai : add? (if eci ≠ 0 ∧ ai.errIdx.isNone = true then { ai with errIdx := some i, errCode := eci } else ai).assets avi with
+        | none => rw [hai] at hi; simp at hi
+        | some a1 =>
+          cases hli : add? (if eci ≠ 0 ∧ ai.errIdx.isNone = true then { ai with errIdx := some i, errCode := eci } else ai).liabs lvi with
+          | none => rw [hai, hli] at hi; simp at hi
+          | some l1 =>
+            cases ham : add? (if ecm ≠ 0 ∧ am.errIdx.isNone = true then { am with errIdx := some i, errCode := ecm } else am).assets avm with
+            | none => rw [ham] at hm; simp at hm
+            | some a2 =>
+              cases hlm : add? (if ecm ≠ 0 ∧ am.errIdx.isNone = true then { am with errIdx := some i, errCode := ecm } else am).liabs lvm with
+              | none => rw [ham, hlm] at hm; simp at hm
+              | some l2 =>
+                rw [hai, hli] at hi
+                rw [ham, hlm] at hm
+                simp only at hi hm
+                have e1 := (add?_some hai).1
+                have e2 := (add?_some hli).1
+                have e3 := (add?_some ham).1
+                have e4 := (add?_some hlm).1
+                have x1 : (if eci ≠ 0 ∧ ai.errIdx.isNone = true then { ai with errIdx := some i, errCode := eci } else ai).assets = ai.assets := by split <;> rfl
+                have x2 : (if eci ≠ 0 ∧ ai.errIdx.isNone = true then { ai with errIdx := some i, errCode := eci } else ai).liabs = ai.liabs := by split <;> rfl
+                have x3 : (if ecm ≠ 0 ∧ am.errIdx.isNone = true then { am with errIdx := some i, errCode := ecm } else am).assets = am.assets := by split <;> rfl
+                have x4 : (if ecm ≠ 0 ∧ am.errIdx.isNone = true then { am with errIdx := some i, errCode := ecm } else am).liabs = am.liabs := by split <;> rfl
+                rw [x1] at e1; rw [x2] at e2; rw [x3] at e3; rw [x4] at e4
+                exact ih (i + 1) _ _ ci cm (fun q hq => hall q (List.mem_cons_of_mem _ hq)) hem (by simp only; omega) (by simp only; omega) hi hm
+
+/-! e-mode reconciliation takes minima per column, so it preserves `0 ≤ init ≤ maint` -/
+def AccOk (acc : List (Entry × Nat)) : Prop := ∀ x ∈ acc, 0 ≤ x.1.wInit ∧ x.1.wInit ≤ x.1.wMaint
+
+theorem mergeEntry_ok {acc : List (Entry × Nat)} {e : Entry} (ha : AccOk acc) (he : e.tag ≠ 0 → 0 ≤ e.wInit ∧ e.wInit ≤ e.wMaint) :
+    AccOk (mergeEntry acc e) := by
+  unfold mergeEntry
+  split
+  · exact ha
+  · rename_i hne
+    replace he := he hne
+    split
+    · intro x hx
+      rcases List.mem_append.1 hx with h | h
+      · exact ha x h
+      · simp only [List.mem_cons, List.mem_nil_iff, or_false] at h; subst h; exact he
+    · intro x hx
+      obtain ⟨y, hy, rfl⟩ := List.mem_map.1 hx
+      have := ha y hy
+      split
+      · dsimp only
+        split <;> split <;> omega
+      · exact this
+
+theorem foldMerge_ok : ∀ (cfg : List Entry) (acc : List (Entry × Nat)), AccOk acc → EntriesOk cfg →
+    AccOk (cfg.foldl mergeEntry acc) := by
+  intro cfg
+  induction cfg with
+  | nil => intro acc ha _; exact ha
+  | cons e rest ih =>
+    intro acc ha hc
+    exact ih _ (mergeEntry_ok ha (hc e (List.mem_cons_self ..))) (fun q hq => hc q (List.mem_cons_of_mem _ hq))
+
+theorem foldConfigs_ok : ∀ (configs : List (List Entry)) (acc : List (Entry × Nat)), AccOk acc →
+    (∀ cfg ∈ configs, EntriesOk cfg) → AccOk (configs.foldl (fun acc cfg => cfg.foldl mergeEntry acc) acc) := by
+  intro configs
+  induction configs with
+  | nil => intro acc ha _; exact ha
+  | cons c rest ih =>
+    intro acc ha hc
+    exact ih _ (foldMerge_ok c acc ha (hc c (List.mem_cons_self ..))) (fun q hq => hc q (List.mem_cons_of_mem _ hq))
+
+/-- **reconcile_ok**: whatever set of bank e-mode configurations is reconciled, if each is coherent
+    (C13 `emode_config_coherent`) the account's effective e-mode is coherent -/
+theorem reconcile_ok (configs : List (List Entry)) (h : ∀ cfg ∈ configs, EntriesOk cfg) : EntriesOk (reconcile configs) := by
+  unfold reconcile
+  split
+  · intro e he; cases he
+  · intro e he
+    obtain ⟨x, hx, rfl⟩ := List.mem_map.1 he
+    intro _
+    exact foldConfigs_ok _ [] (fun _ h => by cases h) h x (List.mem_filter.1 hx).1
+
+theorem accountEmode_ok (ps : List Pos) (h : ∀ p ∈ ps, EntriesOk p.bank.emode) : EntriesOk (accountEmode ps) := by
+  unfold accountEmode
+  apply reconcile_ok
+  intro cfg hc
+  obtain ⟨p, hp, rfl⟩ := List.mem_map.1 hc
+  exact h p (List.mem_filter.1 hp).1
+
+/-- **init_implies_maint** (the consequence clause of C13): at equal (type- and bias-independent) prices, under
+    coherent bank configurations and coherent e-mode entries, an account that passes the initial-margin
+    check also has non-negative maintenance health — with or without e-mode, with or without the init-limit
+    discount and reduce-only banks: borrowing to the limit never makes an account immediately liquidatable. -/
+theorem init_implies_maint (ps : List Pos) (ci cm : Comps)
+    (hall : ∀ p ∈ ps, (∃ price, p.feed = .fixed price ∧ 0 ≤ price) ∧ Coherent p.bank ∧ 0 ≤ p.bank.initLimit ∧ 0 ≤ p.a ∧ 0 ≤ p.l)
+    (hem : ∀ p ∈ ps, EntriesOk p.bank.emode)
+    (hi : components ps .initial = .ok ci) (hm : components ps .maint = .ok cm) (hok : ci.liabs ≤ ci.assets) :
+    ci.assets ≤ cm.assets ∧ cm.liabs ≤ ci.liabs ∧ cm.liabs ≤ cm.assets := by
+  unfold components componentsP at hi hm
+  cases h1 : compsLoop .initial (accountEmode ps) ps 0 { assets := 0, liabs := 0, errIdx := none, errCode := 0 } with
+  | mk c1 f1 =>
+    cases h2 : compsLoop .maint (accountEmode ps) ps 0 { assets := 0, liabs := 0, errIdx := none, errCode := 0 } with
+    | mk c2 f2 =>
+      rw [h1] at hi; rw [h2] at hm
+      cases f1 with
+      | some f => simp at hi
+      | none =>
+        cases f2 with
+        | some f => simp at hm
+        | none =>
+          simp only at hi hm
+          injection hi with hi; injection hm with hm
+          subst hi; subst hm
+          obtain ⟨r1, r2⟩ := loop_init_vs_maint ps 0 _ _ c1 c2 hall (accountEmode_ok ps hem) (Int.le_refl _) (Int.le_refl _) h1 h2
+          exact ⟨r1, r2, by omega⟩
+
 /-! ### where the gate sits (handler skeletons regenerated from the source) -/
 
 section tables
@@ -239,9 +632,23 @@ def demoBank : BankR :=
   { asv := ONE, lsv := ONE, sa := 1000 * ONE, decimals := 6, aInit := ONE / 2, aMaint := ONE / 2, lInit := ONE, lMaint := ONE,
     tier := .collateral, reduceOnly := false, emodeTag := 0, emode := [], initLimit := 0, maxConf := 0 }
 
+def demoBank2 : BankR := { demoBank with aMaint := ONE * 3 / 4, lInit := ONE * 5 / 4, lMaint := ONE * 9 / 8 }
+def demoAcct : List Pos := [ { bank := demoBank2, a := 2000000 * ONE, l := 0, feed := .fixed ONE },
+                            { bank := demoBank2, a := 0, l := 700000 * ONE, feed := .fixed ONE } ]
+
 example : checkInitHealth [ { bank := demoBank, a := 2000000 * ONE, l := 0, feed := .fixed ONE },
                             { bank := demoBank, a := 0, l := 900000 * ONE, feed := .fixed ONE } ] = .ok () := by rfl
 example : checkInitHealth [ { bank := demoBank, a := 2000000 * ONE, l := 0, feed := .fixed ONE },
                             { bank := demoBank, a := 0, l := 1100000 * ONE, feed := .fixed ONE } ] = .error (.err E.RiskEngineInitRejected) := by rfl
+
+/-- non-vacuity of `init_implies_maint`: a borrower at the initial limit meets every hypothesis and both
+    valuations succeed -/
+example : ∃ ci cm, components demoAcct .initial = .ok ci ∧ components demoAcct .maint = .ok cm ∧ ci.liabs ≤ ci.assets ∧
+    cm.liabs ≤ cm.assets ∧ cm.liabs < ci.liabs ∧ ci.assets < cm.assets :=
+  ⟨_, _, rfl, rfl, by decide, by decide, by decide, by decide⟩
+example : ∀ p ∈ demoAcct, (∃ price, p.feed = .fixed price ∧ 0 ≤ price) ∧ Coherent p.bank ∧ 0 ≤ p.bank.initLimit ∧ 0 ≤ p.a ∧ 0 ≤ p.l := by
+  intro p hp
+  simp only [demoAcct, List.mem_cons, List.mem_nil_iff, or_false] at hp
+  rcases hp with rfl | rfl <;> exact ⟨⟨_, rfl, by decide⟩, by unfold Coherent; decide, by decide, by decide, by decide⟩
 
 end Mfi.Props.C04
